@@ -197,7 +197,7 @@ fn run_schedules(rep: &Report, tier: Tier) {
     let slice = tier.pick(2.5f64, 60.0f64);
     for kind in [Kind::BatchSort, Kind::BatchVisualSort] {
         // (voting shards, batch variant, discipline, fine granularity, largest deviation bound)
-        let plan: Vec<(usize, usize, usize, bool, usize)> = vec![(2, 3, 0, true, tier.pick(1, 3)), (2, 0, 1, false, tier.pick(2, 4)), (2, 1, 1, false, tier.pick(2, 4))];
+        let plan: Vec<(usize, usize, usize, bool, usize)> = vec![(2, 3, 0, true, tier.pick(1, 3)), (2, 0, 1, false, tier.pick(2, 4)), (2, 1, 1, false, tier.pick(2, 4)), (2, 1, 1, true, tier.pick(1, 2)), (2, 0, 1, true, tier.pick(1, 2))];
         for (vs, variant, discipline, fine, max_bound) in plan {
             let mut cfg = TrkCfg::new(kind);
             cfg.shards = 1;
